@@ -87,6 +87,8 @@ def tsirelson_interval(D):
     if G.value is None:
         raise OracleFailure("oracle primal has no value")
     Gv = (G.value + G.value.T) / 2
+    if not np.all(np.isfinite(Gv)):
+        raise OracleFailure("oracle primal returned non-finite entries")
     w, V = np.linalg.eigh(Gv)
     vec = V * np.sqrt(np.clip(w, 0, None))  # rows are the vectors
     nrm = np.linalg.norm(vec, axis=1)
@@ -108,6 +110,8 @@ def tsirelson_interval(D):
     if u.value is None or v.value is None:
         raise OracleFailure("oracle dual has no value")
     uu, vv = np.asarray(u.value, dtype=float).reshape(-1), np.asarray(v.value, dtype=float).reshape(-1)
+    if not (np.all(np.isfinite(uu)) and np.all(np.isfinite(vv))):
+        raise OracleFailure("oracle dual returned non-finite entries")
     M = np.block([[np.diag(uu), -D], [-D.T, np.diag(vv)]])
     lam = float(np.linalg.eigvalsh(M)[0])
     shift = max(0.0, -lam) + 1e-12  # (u + shift, v + shift) is dual feasible
